@@ -2,6 +2,8 @@ import Capella.Lemmas.DeclYaml
 import Capella.Lemmas.DeclSync
 import Capella.Lemmas.DeclSync2
 import Capella.Lemmas.DeclPep440
+import Capella.Lemmas.DeclTyped
+import Capella.Gen.Pods
 
 /-!
 # C13 — declarative sync is idempotent; instruction documents survive dump and load
@@ -165,6 +167,175 @@ example : ∀ q, sumBy (Instr.pidN (indS q)) settledDoc ≤ 1 := by
 
 end
 
+
+/-! ## typed find keys (`Model/DeclTyped.lean`, built on the C07 descriptor model) -/
+
+section typed
+open Capella.Pods Capella.DeclTyped
+
+/-- **A find value of the attribute's own type that assignment leaves unchanged is found again** — for
+every descriptor kind, every element and every such value (`keyOk`: any XML-legal string; HTML that
+`repair_html` keeps; `True`/`False`; any int; any float but `nan`/`-inf` and any int a float holds exactly;
+null or a whole-millisecond aware timestamp; the name of any enum member, the default one included):
+assigning it and reading the attribute back gives a value that Python's `==` equates with the YAML value,
+so the second run of `find: {attr: v}` finds the object the first run created. -/
+theorem typed_key_found (P : Params) (C : Cmp P) (hP : P.Lawful) (hC : C.Lawful) (d : Desc) (hd : d.wf = true)
+    (a : Attrs) (hw : d.writable = true ∨ a.has d.attr = false) (v : PyVal P) (hk : keyOk P C d v = true) :
+    findsOwn P C d a v = true ∧ syncTwice P C d a v = .found :=
+  ⟨findsOwn_of_keyOk hP hC d hd a hw v hk, syncTwice_of_keyOk hP hC d hd a hw v hk⟩
+
+/-- … for every POD slot of every registered model class (the generated table of C07) -/
+theorem typed_key_found_table (P : Params) (C : Cmp P) (hP : P.Lawful) (hC : C.Lawful) :
+    ∀ r ∈ Capella.Gen.Pods.podTable, ∀ (a : Attrs) (v : PyVal P),
+      (r.desc.writable = true ∨ a.has r.desc.attr = false) → keyOk P C r.desc v = true →
+      findsOwn P C r.desc a v = true :=
+  fun r hr a v hw hk =>
+    findsOwn_of_keyOk hP hC r.desc (Row.desc_wf r (Capella.Gen.Pods.podTable_wf r hr)) a hw v hk
+
+/-- **Strings**: every XML-legal string is found again (no escaping, no trimming). -/
+theorem string_key_found (P : Params) (C : Cmp P) (hP : P.Lawful) (hC : C.Lawful) (attr : Pods.Str) (wr : Bool)
+    (a : Attrs) (hw : wr = true ∨ a.has attr = false) (s : Pods.Str) (hs : xmlOk s = true) :
+    findsOwn P C ⟨.string, attr, wr⟩ a (.str s) = true :=
+  findsOwn_of_keyOk hP hC _ rfl a hw _ (by simp [keyOk, valid, hs])
+
+/-- **Booleans**: `True` and `False` (the default, stored as an absent attribute) are found again. -/
+theorem bool_key_found (P : Params) (C : Cmp P) (hP : P.Lawful) (hC : C.Lawful) (attr : Pods.Str)
+    (a : Attrs) (b : Bool) : findsOwn P C ⟨.bool, attr, true⟩ a (.bool b) = true :=
+  findsOwn_of_keyOk hP hC _ rfl a (Or.inl rfl) _ (by simp [keyOk, valid])
+
+/-- **Integers**: every int — 0 (absent attribute), negative, arbitrarily large — is found again. -/
+theorem int_key_found (P : Params) (C : Cmp P) (hP : P.Lawful) (hC : C.Lawful) (attr : Pods.Str) (wr : Bool)
+    (a : Attrs) (hw : wr = true ∨ a.has attr = false) (i : Int) :
+    findsOwn P C ⟨.int, attr, wr⟩ a (.int i) = true :=
+  findsOwn_of_keyOk hP hC _ rfl a hw _ (by simp [keyOk, valid])
+
+/-- **Floats**: every finite float (`0.0` and `-0.0` included: both are stored as an absent attribute and
+`0.0 == -0.0`) and `inf` (stored as `*`) is found again. -/
+theorem float_key_found (P : Params) (C : Cmp P) (hP : P.Lawful) (hC : C.Lawful) (attr : Pods.Str) (wr : Bool)
+    (a : Attrs) (hw : wr = true ∨ a.has attr = false) (f : FloatV P.F) (hf : f = .inf ∨ ∃ x, f = .fin x) :
+    findsOwn P C ⟨.float, attr, wr⟩ a (.float f) = true := by
+  refine findsOwn_of_keyOk hP hC _ rfl a hw _ ?_
+  rcases hf with rfl | ⟨x, rfl⟩ <;> simp [keyOk, valid]
+
+/-- **Enums**: the name of every member — the default member included, which is stored as an absent
+attribute — is found again (`_StringyEnumMixin`: a member equals its name; the table obligation checks
+that every enum class of every slot has the mixin). -/
+theorem enum_key_found (P : Params) (C : Cmp P) (hP : P.Lawful) (hC : C.Lawful) (e : EnumCls) (dflt attr : Pods.Str)
+    (wr : Bool) (hd : (⟨.enum e dflt, attr, wr⟩ : Desc).wf = true) (a : Attrs) (hw : wr = true ∨ a.has attr = false)
+    (s : Pods.Str) (hs : (e.byName s).isSome = true) :
+    findsOwn P C ⟨.enum e dflt, attr, wr⟩ a (.str s) = true :=
+  findsOwn_of_keyOk hP hC _ hd a hw _ (by simp [keyOk, valid, hs])
+
+/-- The literal reading: *every* value the descriptor accepts (C07's `valid`) is found again. **False.** -/
+def TypedKeys_full (P : Params) (C : Cmp P) : Prop :=
+  ∀ (d : Desc), d.wf = true → ∀ (a : Attrs), (d.writable = true ∨ a.has d.attr = false) →
+    ∀ v : PyVal P, valid P d v = true → findsOwn P C d a v = true
+
+/-- **HTML, the part that holds**: markup that `repair_html` leaves unchanged is found again. -/
+theorem html_key_partial (P : Params) (C : Cmp P) (hP : P.Lawful) (hC : C.Lawful) (attr : Pods.Str) (wr : Bool)
+    (a : Attrs) (hw : wr = true ∨ a.has attr = false) (s : Pods.Str)
+    (hv : valid P ⟨.html, attr, wr⟩ (.str s) = true) (hfix : P.repair s = some s) :
+    findsOwn P C ⟨.html, attr, wr⟩ a (.str s) = true :=
+  findsOwn_of_keyOk hP hC _ rfl a hw _ (by simp [keyOk, hv, hfix])
+
+/-- **HTML, the excluded point**: with a repair that rewrites the value (as libxml2 turns `a & b` into
+`a &amp; b`) the object is not found again — known finding `sync-twice|creates-again|html-find-key`. -/
+theorem html_key_full_fails : ∃ (P : Params) (C : Cmp P), P.Lawful ∧ C.Lawful ∧ ¬ TypedKeys_full P C := by
+  refine ⟨Toy.growing, growingC, Toy.growing_lawful, growingC_lawful, fun h => ?_⟩
+  have := h ⟨.html, ['d'], true⟩ rfl [] (Or.inl rfl) (.str ['a']) rfl
+  revert this
+  decide
+
+/-- **YAML null is never found again** on an attribute whose default is not `None` (every kind but the
+timestamp): the attribute is removed and reads `""` / `False` / `0` / the default member, none of which
+equals `None` — known finding `sync-twice|creates-again|null-find-key`. -/
+theorem null_key_fails (P : Params) (C : Cmp P) (d : Desc) (hd : d.wf = true) (hk : d.kind ≠ .datetime)
+    (a : Attrs) (hw : d.writable = true ∨ a.has d.attr = false) :
+    findsOwn P C d a .none = false ∧ valid P d .none = true :=
+  ⟨findsOwn_null d hd hk a hw, by simp [valid]⟩
+
+/-- **Timestamps, exactly**: an aware timestamp is found again iff Python equates it with its millisecond
+truncation; for the concrete codec of C07 that is: iff its microseconds are a multiple of 1000. -/
+theorem datetime_key_exact (attr : Pods.Str) (wr : Bool) (a : Attrs) (hw : wr = true ∨ a.has attr = false)
+    (t : DT) (hv : DT.isoOk t = true) :
+    findsOwn dtP dtC ⟨.datetime, attr, wr⟩ a (.aware t) = decide (t.us % 1000 = 0) := by
+  rw [findsOwn_aware dtP_lawful ⟨.datetime, attr, wr⟩ rfl rfl a hw t (by simp only [valid]; exact hv)]
+  exact dt_tEq_trunc_iff t
+
+/-- `2001-01-01T10:00:00.123456+00:00` is accepted and not found again (known finding
+`sync-twice|creates-again|datetime-find-key`). -/
+theorem datetime_submilli_fails :
+    findsOwn dtP dtC ⟨.datetime, "value".toList, true⟩ [] (.aware ⟨2001, 1, 1, 10, 0, 0, 123456, 0⟩) = false := by
+  rw [datetime_key_exact _ _ _ (Or.inl rfl) _ (by decide)]
+  decide
+
+/-- **A naive timestamp is never found again**: it is stored as local time, read back aware, and
+`aware == naive` is false (same known finding). -/
+theorem datetime_naive_fails (P : Params) (C : Cmp P) (hP : P.Lawful) (attr : Pods.Str) (wr : Bool) (a : Attrs)
+    (hw : wr = true ∨ a.has attr = false) (n : P.N) (hv : valid P ⟨.datetime, attr, wr⟩ (.naive n) = true) :
+    findsOwn P C ⟨.datetime, attr, wr⟩ a (.naive n) = false :=
+  findsOwn_naive hP _ rfl rfl a hw n hv
+
+/-- **An int as find value of a float attribute** is found again iff `float(i) == i`, i.e. iff the float
+holds it exactly. -/
+theorem float_int_key_exact (P : Params) (C : Cmp P) (hP : P.Lawful) (hC : C.Lawful) (attr : Pods.Str) (wr : Bool)
+    (a : Attrs) (hw : wr = true ∨ a.has attr = false) (i : Int) (x : P.F) (hx : P.fOfInt i = some x) :
+    findsOwn P C ⟨.float, attr, wr⟩ a (.int i) = C.fEqInt x i :=
+  findsOwn_float_int hP hC _ rfl rfl a hw i x hx
+
+/-- … and with a `float()` that rounds (`float(2**53 + 1) == 2.0**53`; in the toy instance `float(9) = 8.0`)
+the accepted value is not found again — known finding `sync-twice|creates-again|float-find-key`. -/
+theorem float_int_key_fails :
+    rounding.Lawful ∧ roundingC.Lawful ∧ valid rounding ⟨.float, "value".toList, true⟩ (.int 9) = true ∧
+    findsOwn rounding roundingC ⟨.float, "value".toList, true⟩ [] (.int 9) = false :=
+  ⟨rounding_lawful, roundingC_lawful, rfl, by
+    rw [float_int_key_exact rounding roundingC rounding_lawful roundingC_lawful _ _ _ (Or.inl rfl) 9 (8 : Int) rfl]
+    decide⟩
+
+open Capella.Decl in
+/-- **Typed `created_entry_is_found`**: the object is created from the values *as the descriptors store
+and return them* (`nrm key value`), the next run compares with the find values as written. If every find
+value is a fixed point of its attribute's normalisation (and no `set` key overrides a find key), the
+created object is afterwards the one and only match. -/
+theorem created_typed_entry_is_found (nrm : Capella.Decl.Str → RVal → RVal) (g : Graph) (par : Id)
+    (attr : Capella.Decl.Str) (nid : Id) (cls : Capella.Decl.Str)
+    (rs rk : List (Capella.Decl.Str × RVal)) (ty : Option Capella.Decl.Str)
+    (hfresh : g.clsOf nid = none) (hnm : nid ∉ g.members par attr) (hcls : ∀ t, ty = some t → cls = t)
+    (hnone : g.findAmong (g.members par attr) ty rk = .ok none) (hk : KeysKept rk rs)
+    (hfix : ∀ kv ∈ rk, nrm kv.1 kv.2 = kv.2) :
+    (g.create par attr nid cls (normKVs nrm rs)).findAmong
+        ((g.create par attr nid cls (normKVs nrm rs)).members par attr) ty rk = .ok (some nid) :=
+  created_normalised_is_found nrm g par attr nid cls rs rk ty hfresh hnm hcls hnone hk hfix
+
+/-- the normalisation of a string-valued attribute with descriptor `d`, on the values of the sync machine -/
+def strNorm (P : Params) (d : Desc) : Capella.Decl.RVal → Capella.Decl.RVal
+  | .str s => match norm P d [] (.str s) with | .str r => .str r | _ => .str s
+  | v => v
+
+/-- … and the string kinds deliver the fixed-point hypothesis: every XML-legal string for a `StringPOD`
+attribute, every string `repair_html` keeps for an `HTMLStringPOD` attribute. -/
+theorem str_fixed_point (P : Params) (hP : P.Lawful) (d : Desc) (s : Pods.Str)
+    (h : (d.kind = .string ∧ xmlOk s = true) ∨
+         (d.kind = .html ∧ valid P d (.str s) = true ∧ P.repair s = some s)) :
+    strNorm P d (.str s) = .str s := by
+  obtain ⟨kind, attr, wr⟩ := d
+  have hwf : (⟨kind, attr, wr⟩ : Desc).wf = true := by rcases h with ⟨h, _⟩ | ⟨h, _⟩ <;> (simp only at h; subst h; rfl)
+  have hv : valid P ⟨kind, attr, wr⟩ (.str s) = true := by
+    rcases h with ⟨h, hs⟩ | ⟨_, hv, _⟩
+    · simp only at h; subst h; simpa [valid] using hs
+    · exact hv
+  obtain ⟨a', hset, w, hget, hsame⟩ := get_set_of_codec ⟨kind, attr, wr⟩ [] (.str s) (Or.inr rfl) (codec_cases hP _ hwf _ hv)
+  have hden : denote P ⟨kind, attr, wr⟩ (.str s) = .str s := by
+    rcases h with ⟨h, _⟩ | ⟨h, _, hr⟩ <;> (simp only at h; subst h; simp [denote, *])
+  rw [hden] at hsame
+  have hw : w = .str s := by
+    rcases hsame with h | ⟨x, y, _, h, _, _⟩
+    · exact h
+    · cases h
+  simp [strNorm, norm, roundTrip, hset, hget, hw]
+
+end typed
+
 /-! ## non-vacuity -/
 
 def s (x : String) : Str := x.toList
@@ -189,5 +360,32 @@ marker without type hint cannot be constructed -/
 def errOf (r : Except YErr DVal) : Option YErr := match r with | .error e => some e | .ok _ => none
 example : errOf (construct (represent (.uuid (s "not a uuid")))) = some .valueError := by decide
 example : errOf (construct (represent (.newobj (.str []) []))) = some .valueError := by decide
+
+/-! ### typed find keys: non-vacuity -/
+section
+open Capella.Pods Capella.DeclTyped
+
+/-- the laws are satisfiable, and concrete values of every kind are in the domain of `typed_key_found` -/
+example : Toy.params.Lawful ∧ toyC.Lawful := ⟨Toy.lawful, toyC_lawful⟩
+example : keyOk Toy.params toyC ⟨.string, ['n'], true⟩ (.str "a & b".toList) = true := by decide
+example : keyOk Toy.params toyC ⟨.bool, ['b'], true⟩ (.bool true) = true := by decide
+example : keyOk Toy.params toyC ⟨.int, ['i'], true⟩ (.int (-5)) = true := by decide
+example : keyOk Toy.params toyC ⟨.float, ['f'], true⟩ (.float .inf) = true := by decide
+example : keyOk Toy.params toyC ⟨.enum Capella.Gen.Pods.e_VisibilityKind "UNSET".toList, ['v'], true⟩
+    (.str "UNSET".toList) = true := by decide
+example : syncTwice Toy.params toyC ⟨.bool, ['b'], true⟩ [] (.int 1) = .rejected .assertionError := by decide
+example : syncTwice Toy.params toyC ⟨.bool, ['b'], true⟩ [] (.int 0) = .found := by decide
+example : syncTwice Toy.growing growingC ⟨.html, ['d'], true⟩ [] (.str ['a']) = .createsAgain := by decide
+example : DT.isoOk ⟨2001, 1, 1, 10, 0, 0, 123000, 19800000000⟩ = true := by decide
+example : dtC.Lawful :=
+  ⟨fun (x : Int) => by show decide (x = x) = true; simp,
+   fun (x y : Int) (hx : (x == 0) = true) (hy : (y == 0) = true) => by
+     show decide (x = y) = true
+     simp only [beq_iff_eq] at hx hy; simp [hx, hy],
+   fun (x : Int) (hx : (x == 0) = true) => by
+     show decide (x = 0) = true
+     simp only [beq_iff_eq] at hx; simp [hx],
+   fun t => by show decide (DT.instant t = DT.instant t) = true; simp⟩
+end
 
 end Capella.Props.C13
